@@ -67,7 +67,7 @@ the name of a native field of the message nor an "unknown…" name; values of th
 def devsOK (file : List Message) : Bool :=
   let ds := descsOf file
   ds.all (fun d => !d.name.isEmpty && !isPrefixOf' unknownTxt d.name && commasIn d.name == 0 && commasIn d.units == 0 &&
-    d.name.all safeByte && d.units.all safeByte && d.scale == 255 && d.offset == 127) &&
+    d.name.all keepByte && d.units.all keepByte && d.scale == 255 && d.offset == 127) &&   -- `|` joins the parts of a name
   (ds.map (·.name)).eraseDups.length == ds.length &&
   (ds.map fun d => (d.devIdx, d.num)).eraseDups.length == ds.length &&
   file.all fun m => m.devFields.all fun dv =>
